@@ -9,7 +9,7 @@ from checks import docs, loadlib, loadcheck
 
 PROP = 'C06'
 DIAG_LINES_ARE_PROPERTY = True
-TARGETS = ['theories/Proofs/StrictProofs.v', 'theories/Proofs/StrictWholeProofs.v', 'theories/Run/RunLoad.v']
+TARGETS = ['theories/Proofs/StrictProofs.v', 'theories/Proofs/StrictWholeProofs.v', 'theories/Run/RunLoad.v', 'theories/Proofs/DiagPosProofs.v']
 RULE = ('every text is loaded with strict=true and strict=false: valid documents, documents with one injected fault of each of 14 classes '
         '(recoverable and hard), documents with several faults, token-level mutations (delete / duplicate / replace), IF_DATA under an '
         'A2ML definition (conforming and with single-token deviations); '
